@@ -22,7 +22,7 @@ CLAIMED = {
     'C04': dict(
         cat='proof', ref='DESIGN 4/C04',
         text='Per-step output contracts: each header/payload step appends exactly the reply the specification prescribes (UnknownType echoing type and id; EndRequest/CantMpxConn for a foreign BeginRequest; GetValuesResult exactly once when a non-empty GetValues body completes) and nothing otherwise; reported output counts equal bytes appended; consume_output drops exactly the consumed prefix. Reply encoders proved bit-exact by complete Kani harnesses.',
-        note='GetValuesResult content (write_response) is an uninterpreted function on the Verus side and decided by bounded Kani harnesses (C17). Arrival-order over whole histories follows from append-only contracts; not a separate lemma.',
+        note='GetValuesResult content (write_response) is an uninterpreted function on the Verus side and decided by bounded Kani harnesses (C17). Arrival order over whole histories: machine-checked on the run specifications (streamlemmas / reqsplit: the replies of any read schedule are the replies of one call, in order).',
         tech=TECH_V + '; ' + TECH_K),
     'C05': dict(
         cat='proof', ref='DESIGN 4/C05',
@@ -36,8 +36,8 @@ CLAIMED = {
         tech=TECH_K),
     'C17': dict(
         cat='proof', ref='DESIGN 4/C17',
-        text='Complete Kani harnesses over the full domain: RecordHeader from_bytes/to_bytes (all 2^64 byte strings, version checked first), set_lengths (all u16), padding_bytes, is_management, all enum tables (all u8/u16), RequestFlags retain/validate, BeginRequest/EndRequest/UnknownType codecs and whole-record encoders, ExitStatus mapping.',
-        note='write_response (GetValuesResult generation) and make_request_epilogue are bounded stand-ins / not yet covered; listed under coverage.bounded, never counted as proved.',
+        text='make_request_epilogue verified by Verus (near-verbatim text, loop invariant over the output streams: one empty record per stream, then the EndRequest record, all with the request id). Complete Kani harnesses over the full domain: RecordHeader from_bytes/to_bytes (all 2^64 byte strings, version checked first), set_lengths (all u16), padding_bytes, is_management, all enum tables (all u8/u16), RequestFlags retain/validate, BeginRequest/EndRequest/UnknownType codecs and whole-record encoders, ExitStatus mapping.',
+        note='write_response (GetValuesResult generation) and parse_name are bounded stand-ins on concrete cases, listed under coverage.bounded and never counted as proved: empty subset and MPXS_CONNS with a prefilled buffer (quick); one limit variable with max_conns = 7, = 10 (two digits, prefilled buffer) and = usize::MAX (20 digits) (thorough, about 3 min each). Responses with two or three number-valued variables at once - and with them the claim that the longest response fits RESPONSE_LEN - exceed the memory cap / 25 min of CBMC and are NOT covered. SmallVec targets are not covered (Vec only).',
         tech=TECH_K),
     'C18': dict(
         cat='proof', ref='DESIGN 4/C18',
